@@ -119,6 +119,11 @@ Proof.
     symmetry. apply Z.mod_small. pose proof (Z.mod_pos_bound x y). lia.
 Qed.
 
+Lemma signed_semantics : forall N x y, 0 < N -> 0 <= x < 2 ^ N -> 0 <= y < 2 ^ N ->
+  (if y =? 0 then 0 else bvsdiv N x y) = exact_sdiv N x y /\
+  (if y =? 0 then 0 else bvsrem N x y) = exact_smod N x y.
+Proof. intros N x y HN Hx Hy. split; [exact (sdiv_exact N x y HN Hx Hy) | exact (srem_exact N x y HN Hx Hy)]. Qed.
+
 (* at width 256 the exact operations are Base/Word's EVM instructions *)
 Lemma exact_256 : forall x y,
   exact_mul 256 x y = evm_mul x y /\ exact_div 256 x y = evm_div x y /\
@@ -309,6 +314,18 @@ Qed.
 Lemma refine_query_ids : forall q, snd (refine_query q) = snd q.
 Proof. reflexivity. Qed.
 
+Lemma refine_only : forall c, refine_cmd c <> c ->
+  (exists r op ns, In r refine_rules /\ In op (rule_ops r) /\ is_digits ns = true /\
+                   c = inst op ns (rule_decl r)) /\
+  (exists name args ret, c = SList [Atom "declare-fun"; Atom name; args; ret] /\
+                         strip_prefix "f_evm_" name <> None).
+Proof. intros c H. split; [exact (refine_cmd_changed c H) | exact (refine_only_decl c H)]. Qed.
+
+Lemma refine_keeps_asserts :
+  (forall body, refine_cmd (SList (Atom "assert" :: body)) = SList (Atom "assert" :: body)) /\
+  (forall q, snd (refine_query q) = snd q).
+Proof. split; [exact refine_assert_unchanged | exact refine_query_ids]. Qed.
+
 (* text level *)
 Lemma refine_line_changed : forall s,
   refine_line s <> s ->
@@ -353,6 +370,16 @@ Proof.
   unfold dump_text, dump_cached, dump_cached_pre_sx, dump_cached_post_sx, nl.
   repeat (progress (cbn; rewrite ?sapp_assoc, ?append_empty_r)). reflexivity.
 Qed.
+
+Lemma dump_text_both : forall smtlib ids,
+  dump_text false smtlib ids =
+    (unlines (map render dump_plain_pre_sx) ++ smtlib ++ nl ++
+     unlines (map render dump_plain_post_sx))%string /\
+  dump_text true smtlib ids =
+    (unlines (map render dump_cached_pre_sx) ++ smtlib ++ nl ++
+     unlines (map render (dump_named_cmds ids)) ++
+     unlines (map render dump_cached_post_sx))%string.
+Proof. intros. split; [apply dump_text_plain | apply dump_text_cached]. Qed.
 
 (* ================================================================== named assertions *)
 Lemma named_equisat_prop : forall cs : list Prop,
@@ -533,3 +560,8 @@ Section PathProofs.
   Lemma extend_path_conds : forall (p parent : path), conditions (extend_path cond p parent) = conditions parent.
   Proof. reflexivity. Qed.
 End PathProofs.
+
+Lemma slicing_keeps_conditions : forall (cond : Type) (p q parent : path cond) vs,
+  (slice cond p vs = Some q -> conditions q = conditions p) /\
+  conditions (extend_path cond p parent) = conditions parent.
+Proof. intros. split; [apply slice_conds | apply extend_path_conds]. Qed.
